@@ -80,6 +80,17 @@ Proof. vm_compute. auto. Qed.
 Example ex_run_sp : shortest_path lq [] lq_push lq_pop ex_mesh ex_ws 0 [3; 4] = Ok [(3, [0; 1; 2; 3]); (4, [0; 1; 2; 4])].
 Proof. vm_compute. reflexivity. Qed.
 
+(* vertex 5 is isolated: its entry is the empty path, the other targets keep theirs *)
+Definition ex_mesh2 : mesh :=
+  mkmesh 6 [(0, 1); (1, 2); (2, 3); (0, 3); (0, 2); (4, 2)]
+         [[1; 3; 2]; [0; 2]; [1; 3; 0; 4]; [2; 0]; [2]; []] [0; 1; 3].
+Example ex_run_sp_mixed : mesh_ok ex_mesh2 ex_ws = true /\
+  shortest_path lq [] lq_push lq_pop ex_mesh2 ex_ws 0 [3; 5] = Ok [(3, [0; 1; 2; 3]); (5, [])].
+Proof. vm_compute. auto. Qed.
+
+Lemma single_target_forms : forall k, single_accepts k = true.
+Proof. intros [|]; reflexivity. Qed.
+
 Example ex_run_set : shortest_path_to_vertex_set lq [] lq_push lq_pop ex_mesh ex_pts 0 [4; 3] = Ok (3, [0; 3]).
 Proof. vm_compute. reflexivity. Qed.
 
@@ -107,9 +118,9 @@ Qed.
 (* `run_sp`, `run_set`, `run_border` are the functions the correspondence batches evaluate against the implementation *)
 Lemma run_sp_correct m ws start targets :
   mesh_ok m ws = true -> is_vertex m start = true ->
-  (forall t, In t targets -> exists p', valid_path m start t p' = true) ->
+  forallb (is_vertex m) targets = true ->
   exists l, run_sp m ws start targets = Ok l
-            /\ Forall2 (fun t tp => fst tp = t /\ optimal_path m ws start t (snd tp)) (dedup targets) l.
+            /\ Forall2 (fun t tp => fst tp = t /\ target_answer m ws start t (snd tp)) (dedup targets) l.
 Proof. intros. apply (shortest_path_correct hq [] hq_push hq_pop hq_content hq_inv hq_contract); assumption. Qed.
 
 Lemma run_set_correct m ws start T :
@@ -131,9 +142,9 @@ Proof. vm_compute. auto. Qed.
 
 Lemma executed_model_correct : forall m ws start,
   mesh_ok m ws = true -> is_vertex m start = true ->
-  (forall targets, (forall t, In t targets -> exists p', valid_path m start t p' = true) ->
+  (forall targets, forallb (is_vertex m) targets = true ->
      exists l, run_sp m ws start targets = Ok l
-               /\ Forall2 (fun t tp => fst tp = t /\ optimal_path m ws start t (snd tp)) (dedup targets) l) /\
+               /\ Forall2 (fun t tp => fst tp = t /\ target_answer m ws start t (snd tp)) (dedup targets) l) /\
   (forall T, forallb (is_vertex m) T = true -> (exists t0 p0, In t0 T /\ valid_path m start t0 p0 = true) ->
      exists ind p, run_set m ws start T = Ok (ind, p) /\ nearest m ws start T ind p) /\
   (border m <> [] -> forallb (is_vertex m) (border m) = true ->
@@ -149,3 +160,8 @@ Qed.
 Example ex_border_ok : border ex_mesh <> [] /\ forallb (is_vertex ex_mesh) (border ex_mesh) = true
                        /\ forallb (is_vertex ex_mesh) [4; 3] = true.
 Proof. split; [discriminate | vm_compute; auto]. Qed.
+
+Lemma single_target_forms_ok : (forall k, single_accepts k = true) /\
+  forall Q qempty qpush qpop m ws start k t,
+    shortest_path1 Q qempty qpush qpop m ws start k t = shortest_path Q qempty qpush qpop m ws start [t].
+Proof. split; [exact single_target_forms|]. intros. apply single_forms. Qed.
